@@ -1,13 +1,13 @@
 package main
 
 import (
-	"context"
 	"encoding/json"
 	"fmt"
 	"os"
 	"sort"
 	"sync"
 	"time"
+	"verif/monlog"
 
 	"github.com/scionproto/scion/pkg/addr"
 	"github.com/scionproto/scion/pkg/private/ctrl/path_mgmt"
@@ -149,7 +149,7 @@ func c31Run(r *mon.Run, idx int, base time.Time) {
 	keys, ops := c31GenHistory(r, idx)
 	cache := memrevcache.New()
 	model := ref.NewRevCacheRef()
-	ctx := context.Background()
+	ctx := monlog.Alternate() // log level is a configuration dimension
 	baseS := base.Unix()
 	rk := func(k revcache.Key) ref.RevKey { return ref.RevKey{IA: uint64(k.IA), IfID: uint64(k.IfID)} }
 	var hist []c31Obs
